@@ -7,11 +7,14 @@
    (all with Directory path keys), read hash, forced update, entries, to_model,
    collect, reset}; [Fresh NH s n h] = "h is the hash of n computed from
    scratch from the current structure of s"; NH is the user's node hash
-   function (any function with truthy results); [guard] = the structure stays
+   function (ANY function); [guard] = the structure stays
    a DAG and a bulk update receives a dict of plain names and existing nodes;
    [guarded [] h] = every step of history h from the empty heap is guarded.
-   The boolean argument of step/guard is the way a parent link is removed:
-   true = by identity (the code as it is), false = with == (the previous code). *)
+   The two boolean arguments of step/guard select the code that is modelled:
+   first, how a parent link is removed: true = by identity (the code as it is),
+   false = with == (the code before commit 3287c19); second, how "no cached
+   hash" is tested: false = `is None` (the code as it is), true = by truthiness
+   (the code before commit eb927a2).  The theorems are about (true, false). *)
 From Coq Require Import List NArith.
 From SWH.lib Require Import Bytes.
 From SWH.model Require Import Merkle.
@@ -30,15 +33,13 @@ Print Assumptions C10_inv_init.
 (* Every operation, guarded, preserves the invariant - including forced
    updates at inner nodes of DAGs and operations that raise. *)
 Theorem C10_inv_step : forall NH : bytes -> list entry -> bytes,
-  (forall d es, NH d es <> []) ->
-  forall (s : heap) (o : op), InvA NH s -> guard NH true s o -> InvA NH (fst (step NH true s o)).
+  forall (s : heap) (o : op), InvA NH s -> guard NH true false s o -> InvA NH (fst (step NH true false s o)).
 Proof. exact step_inv. Qed.
 Print Assumptions C10_inv_step.
 
 (* Hence every state reached by a guarded history satisfies it. *)
 Theorem C10_reachable : forall NH : bytes -> list entry -> bytes,
-  (forall d es, NH d es <> []) ->
-  forall (h : list op) (s : heap), InvA NH s -> guarded NH true s h -> InvA NH (final NH true s h).
+  forall (h : list op) (s : heap), InvA NH s -> guarded NH true false s h -> InvA NH (final NH true false s h).
 Proof. exact reachable_inv. Qed.
 Print Assumptions C10_reachable.
 
@@ -48,14 +49,13 @@ Print Assumptions C10_reachable.
    scratch from the current structure; Directory.entries / to_model return
    entries built from the fresh hashes of the current children. *)
 Theorem C10_no_stale : forall NH : bytes -> list entry -> bytes,
-  (forall d es, NH d es <> []) ->
   forall (h : list op) (o : op),
-  guarded NH true [] h -> guard NH true (final NH true [] h) o ->
-  let s := final NH true [] h in
-  let s' := fst (step NH true s o) in
+  guarded NH true false [] h -> guard NH true false (final NH true false [] h) o ->
+  let s := final NH true false [] h in
+  let s' := fst (step NH true false s o) in
   (forall n, n < length s -> o = OHash n \/ o = OForce n ->
-     exists hv, snd (step NH true s o) = OutHash hv /\ Fresh NH s' n hv /\ Fresh NH s n hv) /\
-  (forall n es, o = OEntries n \/ o = OToModel n -> snd (step NH true s o) = OutEntries es ->
+     exists hv, snd (step NH true false s o) = OutHash hv /\ Fresh NH s' n hv /\ Fresh NH s n hv) /\
+  (forall n es, o = OEntries n \/ o = OToModel n -> snd (step NH true false s o) = OutEntries es ->
      exists x, nth_error s n = Some x /\ FreshKids NH s' (kids x) es).
 Proof. exact no_stale. Qed.
 Print Assumptions C10_no_stale.
@@ -71,10 +71,9 @@ Print Assumptions C10_fresh_unique.
    after a delete (plain or nested key, successful or raising), every parent q
    that still holds a child c is still recorded in c.parents. *)
 Theorem C10_delete_keeps_other_parent : forall NH : bytes -> list entry -> bytes,
-  (forall d es, NH d es <> []) ->
   forall (h : list op) (p : nat) (key : bytes),
-  guarded NH true [] h -> guard NH true (final NH true [] h) (ODel p key) ->
-  let s' := fst (step NH true (final NH true [] h) (ODel p key)) in
+  guarded NH true false [] h -> guard NH true false (final NH true false [] h) (ODel p key) ->
+  let s' := fst (step NH true false (final NH true false [] h) (ODel p key)) in
   forall q x name c y, nth_error s' q = Some x -> In (name, c) (kids x) -> nth_error s' c = Some y ->
     In q (parents y).
 Proof. exact delete_keeps_other_parent. Qed.
@@ -85,30 +84,30 @@ Print Assumptions C10_delete_keeps_other_parent.
    structurally equal parents, deleted from one, then mutated) after which the
    root reports a hash that is not the from-scratch hash. *)
 Theorem C10_no_stale_refuted_old_remove :
-  exists NH h n hv, (forall d es, NH d es <> []) /\ guarded NH false [] h /\
-    snd (step NH false (final NH false [] h) (OHash n)) = OutHash hv /\
-    ~ Fresh NH (final NH false [] h) n hv.
+  exists NH h n hv, (forall d es, NH d es <> []) /\ guarded NH false false [] h /\
+    snd (step NH false false (final NH false false [] h) (OHash n)) = OutHash hv /\
+    ~ Fresh NH (final NH false false [] h) n hv.
 Proof. exact old_remove_refuted. Qed.
 Print Assumptions C10_no_stale_refuted_old_remove.
 
-(* The hypothesis "node hashes are truthy" is needed: with a compute_hash that
-   returns b"" for some node, invalidate_hash stops at that node and its parents
-   stay stale (the current code, removal by identity). *)
-Theorem C10_falsy_hash_refuted :
-  exists NH h n hv, guarded NH true [] h /\
-    snd (step NH true (final NH true [] h) (OHash n)) = OutHash hv /\
-    ~ Fresh NH (final NH true [] h) n hv.
-Proof. exact falsy_hash_refuted. Qed.
-Print Assumptions C10_falsy_hash_refuted.
+(* The previous truthiness test (`if not self.__hash: return`) does NOT satisfy
+   the property: with a compute_hash returning b"" for some node,
+   invalidate_hash stopped at that node and its parents stayed stale (6-step
+   witness; parent links removed by identity). *)
+Theorem C10_falsy_hash_refuted_old :
+  exists NH h n hv, guarded NH true true [] h /\
+    snd (step NH true true (final NH true true [] h) (OHash n)) = OutHash hv /\
+    ~ Fresh NH (final NH true true [] h) n hv.
+Proof. exact falsy_hash_refuted_old. Qed.
+Print Assumptions C10_falsy_hash_refuted_old.
 
 (* Non-vacuity: a 23-step history building a diamond whose two middle nodes are
    structurally equal and share a child (parents recorded [p2; p1]), with bulk
    update, delete, forced update, collects and a reset, satisfies every guard. *)
 Theorem C10_guards_satisfiable :
-  (forall d es, NH0 d es <> []) /\
-  guarded NH0 true [] h_diamond /\
-  length (final NH0 true [] h_diamond) = 5 /\
-  (let s := final NH0 true [] (firstn 10 h_diamond) in
+  guarded NH0 true false [] h_diamond /\
+  length (final NH0 true false [] h_diamond) = 5 /\
+  (let s := final NH0 true false [] (firstn 10 h_diamond) in
    (exists y, nth_error s 0 = Some y /\ parents y = [2; 1]) /\ node_eqb (S (length s)) s 1 2 = true).
 Proof. exact guards_satisfiable. Qed.
 Print Assumptions C10_guards_satisfiable.
